@@ -422,9 +422,13 @@ func runC05(cfg *config) *Report {
 		}
 		rcases = append(rcases, rcase{b, allEnc[j%4], "random bytes"})
 	}
-	if ents, err := os.ReadDir("/repo/test/testdata/crashers"); err == nil {
+	repoRoot := os.Getenv("VERIF_REPO")
+	if repoRoot == "" {
+		repoRoot = "/repo"
+	}
+	if ents, err := os.ReadDir(repoRoot + "/test/testdata/crashers"); err == nil {
 		for _, ent := range ents {
-			if b, err := os.ReadFile(filepath.Join("/repo/test/testdata/crashers", ent.Name())); err == nil && len(b) < 1<<20 {
+			if b, err := os.ReadFile(filepath.Join(repoRoot+"/test/testdata/crashers", ent.Name())); err == nil && len(b) < 1<<20 {
 				for _, e := range allEnc {
 					rcases = append(rcases, rcase{b, e, "crasher corpus " + ent.Name()[:8]})
 				}
